@@ -176,8 +176,8 @@ pub fn compress(data: &[u8], storage: &Storage) -> Vec<u8> {
     }
 }
 
-fn write_user_data(w: &mut Writer, ud: &UserDataM) {
-    let flags = (ud.text.is_some() as u32) | ((ud.color.is_some() as u32) << 1);
+fn write_user_data(w: &mut Writer, ud: &UserDataM, flag_junk: u32) {
+    let flags = (ud.text.is_some() as u32) | ((ud.color.is_some() as u32) << 1) | (flag_junk & !7);
     w.u32(Kind::Flag, "flags", flags);
     if let Some(t) = &ud.text {
         w.string("text", t);
@@ -207,7 +207,7 @@ pub fn chunk_type(spec: &ChunkSpec) -> u16 {
     }
 }
 
-fn write_chunk_body(w: &mut Writer, spec: &ChunkSpec, fmt: Fmt) {
+fn write_chunk_body(w: &mut Writer, spec: &ChunkSpec, fmt: Fmt, flag_junk: u32) {
     match spec {
         ChunkSpec::Layer { l, junk } => {
             w.u16(Kind::Flag, "flags", l.flags);
@@ -336,7 +336,7 @@ fn write_chunk_body(w: &mut Writer, spec: &ChunkSpec, fmt: Fmt) {
                 }
             }
         }
-        ChunkSpec::UserData(ud) => write_user_data(w, ud),
+        ChunkSpec::UserData(ud) => write_user_data(w, ud, flag_junk),
         ChunkSpec::ExtFiles { files, reserved } => {
             w.u32(Kind::Count, "count", files.len() as u32);
             w.bytes(Kind::Reserved, "reserved", reserved);
@@ -449,7 +449,7 @@ pub fn encode(spec: &FileSpec) -> (Vec<u8>, FieldMap) {
             let csize_off = w.buf.len();
             w.u32(Kind::Len, "size", 0);
             w.u16(Kind::Enum, "ctype", ty);
-            write_chunk_body(&mut w, &item.spec, spec.fmt);
+            write_chunk_body(&mut w, &item.spec, spec.fmt, item.flag_junk);
             w.bytes(Kind::Reserved, "pad", &item.pad);
             let cend = w.buf.len();
             w.patch_u32(csize_off, (cend - cstart) as u32);
